@@ -17,6 +17,8 @@ typedef uint64_t vbitsVal;
 #endif
 
 #define BITS_PER_SLOT (sizeof(vbits) * 8)
+/* 'valueMask' has exactly bitsPerValue one-bits whatever the slot width */
+#define BITS_PER_VALUE_TYPE_ (sizeof(unsigned long long) * 8)
 
 /* Native signed value to varint signed value */
 /* Sign bit is greater than our storage size, so move it down to our
@@ -60,7 +62,7 @@ static void varintBitstreamSet(vbits *const dst, const size_t startBitOffset,
 
     /* This assert triggers if your 'val' is too big to be stored
      * using 'bitsPerValue' */
-    valueMask = (~0ULL >> (BITS_PER_SLOT - bitsPerValue));
+    valueMask = (~0ULL >> (BITS_PER_VALUE_TYPE_ - bitsPerValue));
     assert(0 == (~valueMask & val));
 
     if (lowDataBitPosition >= 0) {
@@ -95,7 +97,7 @@ static vbitsVal varintBitstreamGet(const vbits *const src,
     highDataBitPosition = BITS_PER_SLOT - (startBitOffset % BITS_PER_SLOT);
     lowDataBitPosition = highDataBitPosition - (int32_t)bitsPerValue;
 
-    valueMask = (~0ULL >> (BITS_PER_SLOT - bitsPerValue));
+    valueMask = (~0ULL >> (BITS_PER_VALUE_TYPE_ - bitsPerValue));
 
     if (lowDataBitPosition >= 0) {
         out = (in[0] >> lowDataBitPosition) & valueMask;
